@@ -57,6 +57,45 @@ def boxes(rng, n, bs, count):
     return out
 
 
+def zero_coordinate_boxes(ctx, rng):
+    """crops by coordinate whose box starts (or stops) exactly at coordinate 0 -- line number 0, 0.0 ms -- on axes that
+    reach 0 somewhere after their first entry"""
+    for k in range(ctx.n(4, 40)):
+        n = (int(rng.integers(9, 20)), int(rng.integers(9, 20)), 300 + int(rng.integers(0, 300)))
+        ji, jx, jz = 4 * int(rng.integers(1, 3)), 4 * int(rng.integers(1, 3)), 256
+        di, dx = int(rng.choice([1, 2, -1, 3])), int(rng.choice([1, -2, 4]))
+        dz = int(rng.choice([1000, 2000, 4000]))
+        fi = synth.make(ctx.path('zc_src.sgz'), n, (4, 4, 256), 32, rng, il=(-di * ji, di), xl=(-dx * jx, dx),
+                        z=(-jz * dz // 1000, dz), n_arrays=3)
+        with symcodec.symbolic_decoder():
+            src_view = view.sgz_view(fi.path)
+            for which in range(4):
+                bi = (ji, min(n[0], ji + 4)) if which in (0, 3) else None
+                bx = (jx, min(n[1], jx + 4)) if which in (1, 3) else None
+                bz = (jz, n[2]) if which == 2 else None
+                co = lambda a, r: None if r is None else (type(a[0])(a[r[0]]), a[r[1]] if r[1] < len(a) else a[-1] + (a[-1] - a[-2]))
+                cbox = (co(fi.il, bi), co(fi.xl, bx), co(fi.z, bz))
+                d = {'n': n, 'il': fi.il[:2], 'xl': fi.xl[:2], 'z': fi.z[:2], 'coordinate_box': cbox, 'index_box': (bi, bx, bz)}
+                ctx.case(('zero-coordinate', n, which, di, dx, dz), sample=d if which == 0 else None)
+                ctx.stats['zero_coordinate_boxes'] += 1
+                out = ctx.path('zc.sgz')
+                try:
+                    with SgzCropper(fi.path) as c:
+                        env.quiet(c.write_cropped_file_by_coords, out, cbox[0], cbox[1], cbox[2])
+                except Exception as e:  # noqa
+                    ctx.fail(f'crop by coordinates starting at coordinate 0 failed: {type(e).__name__}: {str(e)[:100]}', d)
+                    continue
+                wbox = tuple(widen(*(b if b is not None else (0, n[ax])), fi.lay.bs[ax], n[ax]) for ax, b in enumerate((bi, bx, bz)))
+                probs = spec.conformance_problems(out)
+                try:
+                    probs += view.diff_views(view.sgz_view(out), view.restrict(src_view, wbox),
+                                             keys=('tracecount', 'structured', 'ilines', 'xlines', 'zslices', 'volume', 'tracefields'))
+                except Exception as e:  # noqa
+                    probs.append(f'cropped file cannot be read: {type(e).__name__}: {str(e)[:100]}')
+                for p_ in probs:
+                    ctx.fail('crop by coordinates starting at coordinate 0: ' + p_, d)
+
+
 def run(ctx):
     rng = gen.rng_for(ctx.seed, 'c10')
     n_files = ctx.n(24, 300)
@@ -206,6 +245,7 @@ def run(ctx):
         from . import c05
         c05.z_crop_axes(ctx, gen.rng_for(ctx.seed, 'c10-zcrop'))
         c05.z_crop_chains(ctx, gen.rng_for(ctx.seed, 'c10-zcrop-chains'))
+        zero_coordinate_boxes(ctx, gen.rng_for(ctx.seed, 'c10-zero-coordinate'))
     finally:
         model.close()
 
